@@ -50,6 +50,8 @@ class Prop(PropBase):
         for gi, t in enumerate(types):
             l = self.L[t]
             user, tail = rng.choice([(0, 0), (0, 0), (4, 0), (4, 2), (64, 64)])
+            if gi < 6:
+                user, tail = [(0, 0), (4, 2), (0, 0), (64, 64), (4, 0), (0, 0)][gi]     # layers on both the select and the epoll groups, whatever the seed
             vlan = rng.randrange(2)
             ports = rng.choice(['distinct', 'distinct', 'equal', 'difop0'])
             if gi < 2:
